@@ -69,7 +69,7 @@ Definition model_fill (g : mcfg) (i : mins) (vol : option Q) (turnover unfilled 
   match fill_amount g i vol turnover unfilled with None => if is_market then GCancel else GNone | Some f => GFill f end.
 Lemma gen_fill_eq : forall g i v turnover unfilled is_market,
   gen_fill (m_volume_limit g) true v (m_volume_percent g) turnover (i_lot i) unfilled is_market = model_fill g i (Some v) turnover unfilled is_market.
-Proof. intros. unfold gen_fill, model_fill, fill_amount, volume_cap. destruct (m_volume_limit g); [|reflexivity].
+Proof. intros. unfold gen_fill, model_fill, fill_amount, volume_cap, lot_cap. destruct (m_volume_limit g); [|reflexivity].
   destruct (qle_b _ 0); [destruct is_market; reflexivity|reflexivity]. Qed.
 Lemma gen_fill_nan_eq : forall g i v turnover unfilled is_market,
   gen_fill (m_volume_limit g) false v (m_volume_percent g) turnover (i_lot i) unfilled is_market = model_fill g i None turnover unfilled is_market.
